@@ -211,3 +211,43 @@ def describe(c):
          "weights": getattr(c, "weight_form", None) if c.weight_arg is not None else None,
          "spread": getattr(c, "spread_form", None), "target_param": c.target_param, "target_state": c.target_state}
     return d
+
+
+def has_mixed_second_derivatives(ref):
+    """True iff the model has a non-zero d2f/dx dtheta or d2f/dtheta2 (decided symbolically on the reference)."""
+    return any(v != 0 for v in ref.sym("hess_xt")) or any(v != 0 for v in ref.sym("hess_tt"))
+
+
+def ref_second_order(c, theta, full=True, x0=None, rtol=1e-11):
+    """Reference second-order forward sensitivities: returns X (n,nS), S (n,nS,nP), FF (n,nS,nP,nP).
+    full=False omits the mixed d2f/dx dtheta and pure d2f/dtheta2 source terms (the truncation of pygom's eval_forwardforward)."""
+    theta = list(theta)
+    x0 = np.asarray(c.x0 if x0 is None else x0, dtype=float)
+    nS, nP = c.nS, c.nP
+    ref = c.ref
+    fnum, jnum, gnum = ref.num("ode"), ref.num("jacobian"), ref.num("grad")
+    hxx, hxt, htt = ref.num("hess_xx"), ref.num("hess_xt"), ref.num("hess_tt")
+
+    def aug(t, z):
+        x = z[:nS]
+        S = z[nS:nS + nS * nP].reshape(nS, nP)
+        FF = z[nS + nS * nP:].reshape(nS, nP, nP)
+        J = jnum(x, t, theta)
+        Gm = gnum(x, t, theta).reshape(nS, nP)
+        Hxx = hxx(x, t, theta).reshape(nS, nS, nS)
+        dFF = np.einsum("ik,kab->iab", J, FF) + np.einsum("ma,imn,nb->iab", S, Hxx, S)
+        if full:
+            Hxt = hxt(x, t, theta).reshape(nS, nS, nP)
+            Htt = htt(x, t, theta).reshape(nS, nP, nP)
+            dFF = dFF + np.einsum("ma,imb->iab", S, Hxt) + np.einsum("mb,ima->iab", S, Hxt) + Htt
+        return np.concatenate([fnum(x, t, theta).reshape(-1), (J.dot(S) + Gm).reshape(-1), dFF.reshape(-1)])
+
+    z0 = np.concatenate([x0, np.zeros(nS * nP + nS * nP * nP)])
+    sc = 1.0 + float(np.max(np.abs(x0)))
+    with np.errstate(all="ignore"):
+        s = solve_ivp(aug, (c.t0, float(c.times[-1])), z0, method="DOP853", t_eval=c.times, rtol=rtol, atol=1e-13 * sc)
+    if not s.success or s.y.shape[1] != len(c.times) or not np.all(np.isfinite(s.y)):
+        return None
+    Z = s.y.T
+    n = len(c.times)
+    return Z[:, :nS], Z[:, nS:nS + nS * nP].reshape(n, nS, nP), Z[:, nS + nS * nP:].reshape(n, nS, nP, nP)
